@@ -290,6 +290,7 @@ class FakeSnowflakeCursor:
             # the schema of the previous database is no longer current
             self._conn.schema = None
             self._conn.schema_set = False
+            result_sql = SQL_SUCCESS
 
         elif set_schema := transformed.args.get("set_schema"):
             self._conn.schema = set_schema
@@ -298,6 +299,12 @@ class FakeSnowflakeCursor:
                 # USE SCHEMA <database>.<schema> also changes the current database
                 self._conn.database = set_schema_database
                 self._conn.database_set = True
+            result_sql = SQL_SUCCESS
+
+        elif isinstance(transformed, (exp.Transaction, exp.Commit, exp.Rollback)):
+            # like USE, these return no result set in duckdb; snowflake returns a status row, which is also what
+            # description describes
+            result_sql = SQL_SUCCESS
 
         elif create_db_name := transformed.args.get("create_db_name"):
             # we created a new database, so create the info schema extensions
